@@ -94,6 +94,14 @@ fn scenario(rng: &mut Rng, n: usize, idx: usize) -> Scenario {
                 1 => format!("v=`{genc}`; probe t2 \"$v\"\n"),
                 _ => format!("v=$(echo \"$({genc})\"); probe t2 \"$v\"\n"),
             };
+            // the same with the shell's own standard output and/or input closed while the
+            // substitution is expanded: the pipe ends then land on descriptors 0/1
+            let script = match rng.below(8) {
+                0 => format!("{{ {}; }} >&-\n", script.trim_end()),
+                1 => format!("{{ {}; }} <&-\n", script.trim_end()),
+                2 => format!("{{ {}; }} <&- >&-\n", script.trim_end()),
+                _ => script,
+            };
             Scenario {
                 script,
                 expect: vec![("t2".into(), vec![want])],
